@@ -47,6 +47,8 @@ BOUND = {
                 "x position {last, first} x indent {default,None,0,1,4} x suffix {'', .gz} (205,400)",
 }
 TIME_CAP = {"quick": 240, "thorough": 3000}
+BOUND["quick"] += '; floats of particular value next to a missing one (-0.0, 1e300, -2**64); properties named like dict methods (values, items, keys, get)'
+BOUND["thorough"] += "; plus the additions listed for the quick tier"
 
 POINT = {"type": "Point", "coordinates": [24.94, 60.17]}
 POLYGON = {"type": "Polygon", "coordinates": [[[0, 0], [1.5, 0], [1, 1], [0, 0]], [[0.25, 0.25], [0.5, 0.25], [0.5, 0.5], [0.25, 0.25]]],
